@@ -1,7 +1,7 @@
 (** Dispatcher of the executable model: one input line -> one observation
     line, for the generated tables and for the specified tables. *)
 From Coq Require Import String.
-From PSA Require Import Base Lines Lifecycle Regex Claims Obs CaseClaims RunC14 RunHist Tags Wire Codec RunCodec Evidence RunEv Cose RunCose.
+From PSA Require Import Base Lines Lifecycle Regex Claims Obs CaseClaims RunC14 RunHist Tags Wire Codec RunCodec Evidence RunEv Cose RunCose Embedded RunEmb.
 From PSA.Spec Require Import SpecTables SpecTags.
 From PSA.Gen Require Import GenConsts GenTags.
 Open Scope N_scope.
@@ -22,6 +22,12 @@ Definition run_line (cfg : ccfg) (w : wcfg) (line : bytes) : bytes :=
       else if bytes_eqb p (s2b "GATE") then run_gate cfg w args
       else if bytes_eqb p (s2b "SRT") then run_srt cfg w args
       else if bytes_eqb p (s2b "COSE") then run_cose cfg w args
+      else if bytes_eqb p (s2b "FMAP") then run_fmap args
+      else if bytes_eqb p (s2b "FROM") then run_from args
+      else if bytes_eqb p (s2b "SER") then run_ser args
+      else if bytes_eqb p (s2b "POP") then run_pop args
+      else if bytes_eqb p (s2b "SERJ") then run_serj args
+      else if bytes_eqb p (s2b "SERJ") then run_serj args
       else if bytes_eqb p (s2b "TAMP") then run_tamp cfg w args
       else if bytes_eqb p (s2b "DECV") then run_decv cfg w args
       else bad_input
